@@ -1090,7 +1090,16 @@ class Envelope:
             t_a=delay, omega_a=(C0 / n) / other.wavelength
         )
         integrand = lambda x: np.conj(f1(x)) * f2(x)
-        result, _ = quad(integrand, -np.inf, np.inf)
+        # Integrate over the support of the product of the two pulses instead of
+        # (-inf, inf): quad's sampling of the infinite interval misses pulses that
+        # are narrow or centred far from the origin and returns 0.
+        s1 = self.temporal_profile.params["sigma"]
+        s2 = other.temporal_profile.params["sigma"]
+        c1 = self.temporal_profile.params["mu"]
+        c2 = delay + other.temporal_profile.params["mu"]
+        width = s1 * s2 / np.sqrt(s1**2 + s2**2)
+        centre = (c1 * s2**2 + c2 * s1**2) / (s1**2 + s2**2)
+        result, _ = quad(integrand, centre - 12 * width, centre + 12 * width)
 
         return result
 
